@@ -94,7 +94,13 @@ func blockPos(b *ssa.BasicBlock) token.Pos {
 	return token.NoPos
 }
 
+// realRefHeap: a heap variable of real (non-ghost) state indexed by object reference.
+func realRefHeap(name, srt string) bool {
+	return !strings.HasPrefix(name, "ghost.") && !strings.HasPrefix(name, "gv.") && strings.HasPrefix(srt, "(Array Int ")
+}
+
 type modInfo struct {
+	pointee   bool // changed only through pointee(p) writes inside the loop
 	sort      string
 	freshOnly bool
 	whole     bool   // some modification is at an index not known at loop entry
@@ -265,7 +271,8 @@ func (fx *FnExec) loopEnter(st *State, fr *frame, h *loopHdr, b, pred *ssa.Basic
 		for i, c := range spec.Invariants {
 			v, err := env.safeEval(c.Expr)
 			if err != nil {
-				panic(fmt.Sprintf("%s:%d: %v", c.File, c.Line, err))
+				fx.bindingFailure(st, fr, fmt.Sprintf("loop%d/%s", h.ord, clauseName(c, i)), c, err)
+				continue
 			}
 			fx.emit(st, fr, "inv-establish", fmt.Sprintf("loop%d/%s", h.ord, clauseName(c, i)), v.t, c.Props, c.Src)
 		}
@@ -285,9 +292,51 @@ func (fx *FnExec) loopEnter(st *State, fr *frame, h *loopHdr, b, pred *ssa.Basic
 	}
 	allocAtEntry := st.alloc
 	mods := fx.loopMods(st, fr, h)
+	_, pointeeLoop := mods["*pointee"]
+	delete(mods, "*pointee")
+	if pointeeLoop {
+		// some call in the loop writes an object through a pointer of unknown
+		// type (pointee(p)): every real heap variable may change at objects that
+		// existed when the function was entered (obligation pointee-preexisting
+		// at each such call); objects the function allocated itself keep their
+		// contents unless the loop writes them in the ordinary way.
+		st.pointeeLoop = true
+		for _, name := range sortedTermKeys(st.heap) {
+			if _, ok := mods[name]; ok || !realRefHeap(name, fx.heapSorts[name]) {
+				continue
+			}
+			mods[name] = modInfo{sort: fx.heapSorts[name], pointee: true}
+		}
+	}
 	for _, name := range sortedKeys(mods) {
 		mi := mods[name]
 		old := st.heapGet(name, mi.sort)
+		if pointeeLoop && !mi.whole && realRefHeap(name, mi.sort) {
+			es := arrayElemSort(mi.sort)
+			cur := old
+			seen := map[Term]bool{}
+			for _, pt := range mi.points {
+				if !seen[pt] {
+					seen[pt] = true
+					cur = "(store " + cur + " " + pt + " " + fx.freshConst(name+"@looppt", es) + ")"
+				}
+			}
+			nv := fx.freshConst(name+"@loop", mi.sort)
+			// objects allocated by this function before the loop are untouched
+			st.assume(fmt.Sprintf("(forall ((q.r Int)) (! (=> (and (or (> q.r %s) (<= q.r (- (* (+ %s 1) 1024)))) (<= q.r %s)) (= (select %s q.r) (select %s q.r))) :pattern ((select %s q.r))))",
+				fx.entryAlloc, fx.entryAlloc, allocAtEntry, nv, cur, nv))
+			st.heapSet(name, mi.sort, nv)
+			if fal := fx.topFrameAllowed(st); fal != nil {
+				if pre, ok := fx.frameFormula(st, name, old, fal, st.entryHeap, fx.entryAlloc); ok {
+					fx.emit(st, fr, "frame-establish", fmt.Sprintf("loop%d/%s", h.ord, name), pre, nil, "")
+				}
+				if post, ok := fx.frameFormula(st, name, nv, fal, st.entryHeap, fx.entryAlloc); ok {
+					st.assume(post)
+					st.loopFrames = append(append([]string(nil), st.loopFrames...), fmt.Sprintf("%d|%s", h.ord, name))
+				}
+			}
+			continue
+		}
 		if !mi.whole && strings.HasPrefix(mi.sort, "(Array ") {
 			// modified only at indices fixed before the loop (and at fresh objects)
 			es := arrayElemSort(mi.sort)
@@ -408,7 +457,7 @@ func (fx *FnExec) loopEnter(st *State, fr *frame, h *loopHdr, b, pred *ssa.Basic
 		for _, c := range spec.Invariants {
 			v, err := env.safeEval(c.Expr)
 			if err != nil {
-				panic(fmt.Sprintf("%s:%d: %v", c.File, c.Line, err))
+				continue // reported at establish
 			}
 			st.assume(v.t)
 		}
@@ -460,7 +509,8 @@ func (fx *FnExec) loopBack(st *State, fr *frame, h *loopHdr, b, pred *ssa.BasicB
 		for i, c := range spec.Invariants {
 			v, err := env.safeEval(c.Expr)
 			if err != nil {
-				panic(fmt.Sprintf("%s:%d: %v", c.File, c.Line, err))
+				fx.bindingFailure(st, fr, fmt.Sprintf("loop%d/%s", h.ord, clauseName(c, i)), c, err)
+				continue
 			}
 			fx.emit(st, fr, "inv-preserve", fmt.Sprintf("loop%d/%s", h.ord, clauseName(c, i)), v.t, c.Props, c.Src)
 		}
@@ -1250,6 +1300,9 @@ func (fx *FnExec) staticModTargetsTyped(m Expr, vars map[string]types.Type, pkg 
 		}
 	case *ECall:
 		switch x.Fn {
+		case "pointee", "pointees":
+			// an object reached through a pointer of unknown type: any real heap variable
+			return []heapVarRef{{"*pointee", ""}}
 		case "map":
 			mt0 := fx.staticType(x.Args[0], vars, pkg)
 			if mt0 == nil {
